@@ -188,6 +188,7 @@ fn run_fs(c: &FsCase) -> Outcome {
 		replace_action_at: 0,
 		throttle_change: None,
 		empty_errs: false,
+		throttle_via_field: false,
 	};
 	let w2 = world.clone();
 	let fail = c.fail_watch;
@@ -237,6 +238,13 @@ fn run_fs(c: &FsCase) -> Outcome {
 	};
 	let path_refs: Vec<&str> = all_paths.iter().map(String::as_str).collect();
 	let r = run_with(&sc, Some(&install), Some(&side), &path_refs);
+	if world.callback_panics() > 0 {
+		o.fail(
+			"watcher-callback-panicked",
+			format!("the event handler given to the watcher panicked {} time(s) when called from the watcher's own thread (outside the async runtime, as real watchers do)\ncase {c:?}", world.callback_panics()),
+		);
+		return o;
+	}
 	MockWorld::uninstall();
 	let dump = || format!("\ncase: {c:?}\nbatches: {:?}\nerrors: {:?}\nmain: {}", r.batches, r.errors.iter().map(|e| (&e.kind, e.id)).collect::<Vec<_>>(), r.main_result);
 	let n_ok = c.emits.iter().filter(|e| e.1 == 0).count();
